@@ -1,7 +1,7 @@
 SPECIFICATION Spec
 CONSTANTS
 Grid = {0, 1, 2, 3, 4}
-Funs = {1, 2, 3, 4}
+Funs = {1, 2, 3, 4, 5}
 INVARIANTS ClassifiedOnce Consecutive AgreesWithDefinition ZeroMatrixOneClass
 PROPERTIES Progress CutsNeverRise
 CHECK_DEADLOCK FALSE
